@@ -113,7 +113,12 @@ func RunPlan(ex *Executor, p *plan.Plan, agg *Agg) Result {
 		}
 	}
 	one := func(q *plan.Plan) bool {
+		var twin [][][]byte
+		if q.Twin {
+			twin = twinFor(ex, q, agg)
+		}
 		out := ex.Execute(q)
+		out.TwinSinks = twin
 		res.Execs++
 		res.Steps += out.Steps
 		if res.TraceHash == 0 {
